@@ -59,6 +59,8 @@ structure WalkSt where
   errPaths : List Str := []                        -- sources named on stderr
   errCount : Nat := 0
   queue : List QItem := []
+  fresh : List Nat := []                           -- (follow mode) inode numbers not yet in visited_inodes
+  visitedDirs : List Str := []                     -- (follow mode) visited_dirs, canonical paths
 
 /-- the `Searcher` record, split by who touches what (so that "check_file does not disturb the
     traversal" is a fact of the types, not a lemma) -/
